@@ -250,12 +250,30 @@ def runRound (sensors : SensorTable) (now : Int) (fuel : Nat) (k : Nat) :
       (tbl', outs, some s!"run={r} at={k}.{i}")
 
 def runRounds (c : Configuration) (now : Int) (fuel : Nat) (ids : List (String × Nat)) :
-    List (Int × Nat) → CurveTable → List Int → List Int × Option String
-  | [], _, outs => (outs, none)
+    List (Int × Nat) → CurveTable → List Int → CurveTable × List Int × Option String
+  | [], tbl, outs => (tbl, outs, none)
   | (v, k) :: rest, tbl, outs =>
     match runRound (sensorTable c v) (now + (k : Int) * 1000000000) fuel k ids tbl outs with
-    | (_, outs', some fail) => (outs', some fail)
+    | (tbl', outs', some fail) => (tbl', outs', some fail)
     | (tbl', outs', none) => runRounds c now fuel ids rest tbl' outs'
+
+/-- the sensors of the failing round: every read fails, the moving averages are those of the last round -/
+def sensorTableFailing (c : Configuration) (v : Int) : SensorTable :=
+  (c.sensors.zipIdx).map fun (s, j) =>
+    let x := F64.ofInt (v + 1500 * (j : Int))
+    (s.id, { avg := x, value := .err "read" })
+
+/-- the round in which every sensor read fails: per curve its value or `e`; a crash ends the run -/
+def runFailRound (sensors : SensorTable) (now : Int) (fuel : Nat) (k : Nat) :
+    List (String × Nat) → CurveTable → List String → List String × Option String
+  | [], _, toks => (toks, none)
+  | (id, i) :: rest, tbl, toks =>
+    match evalCurve indefAmd64 sensors now fuel tbl id with
+    | (tbl', .ok v) => runFailRound sensors now fuel k rest tbl' (toks ++ [toString v])
+    | (tbl', .err _) => runFailRound sensors now fuel k rest tbl' (toks ++ ["e"])
+    | (_, .panic site) =>
+      let r := if site == "out-of-fuel" then "hang" else s!"panic:{panicClass site}"
+      (toks, some s!"run={r} at={k}.{i}")
 
 def cfgRun (st : ConfigDrvSt) (a : KV) : String :=
   if !st.lastOk then "run=skipped at=- out=-"
@@ -270,8 +288,14 @@ def cfgRun (st : ConfigDrvSt) (a : KV) : String :=
       let now := a.int "now" 1000000000
       let ids := (c.curves.map (·.id)).zipIdx
       match runRounds c now (c.curves.length + 1) ids vals.zipIdx tbl [] with
-      | (outs, some fail) => s!"{fail} out={fmtInts outs}"
-      | (outs, none) => s!"run=ok at=- out={fmtInts outs}"
+      | (_, outs, some fail) => s!"{fail} out={fmtInts outs}"
+      | (tbl', outs, none) =>
+        if !(a.bool "fail" false) then s!"run=ok at=- out={fmtInts outs}"
+        else
+          let k := vals.length
+          match runFailRound (sensorTableFailing c (vals.getLastD 0)) (now + (k : Int) * 1000000000) (c.curves.length + 1) k ids tbl' [] with
+          | (_, some fail) => s!"{fail} out={fmtInts outs}"
+          | (toks, none) => s!"run=ok at=- out={fmtInts outs} fail={if toks.isEmpty then "-" else ",".intercalate toks}"
 
 def configStep (st : ConfigDrvSt) (op : String) (a : KV) : ConfigDrvSt × String :=
   match op with
